@@ -107,6 +107,10 @@ def run_launch(spec):
     outname = "out.py"
     if spec["out"] == "file":
         args += ["-o", outname]
+        if spec.get("stale_output"):
+            # the output file already exists (a rebuild into the same file): what is written replaces it
+            with open(os.path.join(d, outname), "w") as f:
+                f.write("# left over from an earlier build\nstale_1 = True\n")
     lib = []
     for s in spec["sources"]:
         path = os.path.join(d, s["name"])
@@ -311,6 +315,8 @@ def build_launches(seed, count):
         rep_b = {"name": "rep_b.pl", "text": "b(2).\n", "via": "file"}
         launches.append({"kind": "valid", "sources": [dict(rep_a), dict(rep_b), dict(rep_a)], "flags": [], "out": "stdout"})
         launches.append({"kind": "valid", "sources": [dict(rep_b), dict(rep_b), dict(rep_a), dict(rep_b)], "flags": ["--debug-filename"], "out": "file"})
+        launches.append({"kind": "valid", "sources": [dict(rep_a)], "flags": [], "out": "file", "stale_output": True})
+        launches.append({"kind": "valid", "sources": [dict(rep_b), dict(rep_a)], "flags": ["-d"], "out": "file", "stale_output": True})
         # a semantic (non-syntax) refusal and a crash-type refusal
         launches.append({"kind": "invalid", "sources": [{"name": "ok.pl", "text": "p.\n", "via": "file"},
                                                         {"name": "ophead.pl", "text": "q.\n\n  a = b.\n", "via": "file"}], "flags": [], "out": "stdout"})
